@@ -19,14 +19,15 @@ import (
 )
 
 type c03Case struct {
-	EdDSA   bool
-	N, T    int
-	Pattern string
-	Keys    []H
-	Bad     string // "", "zero-mod-q", "congruent"
-	Sched   SchedSpec
-	PrePerm []int
-	GenPre  []int `json:",omitempty"` // ECDSA: sorted party indices that pass no pre-parameters (the library generates them)
+	EdDSA       bool
+	N, T        int
+	Pattern     string
+	Keys        []H
+	Bad         string // "", "zero-mod-q", "congruent"
+	Sched       SchedSpec
+	PrePerm     []int
+	OtherGlobal bool  `json:",omitempty"` // process-global curve set to the curve this key generation does not use
+	GenPre      []int `json:",omitempty"` // ECDSA: sorted party indices that pass no pre-parameters (the library generates them)
 }
 
 func genC03(edd bool) func(t *rapid.T) c03Case {
@@ -56,6 +57,7 @@ func genC03(edd bool) func(t *rapid.T) c03Case {
 		}
 		c.Sched = genSched(t, c.N, schedNoDup)
 		c.PrePerm = rapid.Permutation([]int{0, 1, 2, 3, 4}).Draw(t, "preperm")
+		c.OtherGlobal = rapid.IntRange(0, 2).Draw(t, "otherGlobal") == 0
 		return c
 	}
 }
@@ -104,6 +106,10 @@ func runC03(c c03Case) ev.Outcome {
 	fail := func(sig, f string, a ...interface{}) ev.Outcome {
 		out.Err, out.Sig = fmt.Errorf(f, a...), sig
 		return out
+	}
+	setGlobalCurve(c.EdDSA, c.OtherGlobal)
+	if c.OtherGlobal {
+		out.Label += " global-curve=other"
 	}
 	cfg := sim.KeygenCfg{EdDSA: c.EdDSA, Keys: bigs(c.Keys), T: c.T}
 	if !c.EdDSA {
